@@ -87,7 +87,8 @@ def _r1(ctx, cg):
         lits = [l for l, _, _, _ in str_tests(P, b)]
         if any(l in tables.HTTP_ROUTE_PERMISSION for l in lits) and any(l.startswith("/") for l in lits) and b.file.endswith("http.rs"):
             routers.append(b)
-    ctx.floor("R1", "HTTP router body", len(routers), 1)
+    if ctx.config == "default":   # the http feature is part of the default build only
+        ctx.floor("R1", "HTTP router body", len(routers), 1)
     for body in routers:
         ctx.saw(body)
         cfg = cfg_of(body)
